@@ -8,6 +8,7 @@ CONSTANTS
   FixSessErr = FALSE
   FixRet = FALSE
   FixAdd = FALSE
-  Depth = 22
+  Depth = 28
   Loop = FALSE
+  AddGate = TRUE
 CHECK_DEADLOCK FALSE
